@@ -155,7 +155,7 @@ func checkC05(c *an.Ctx) {
 			c.Und("C05.1", an.Short(bp)+":stage-loop", bp.Pos(), "buildPipeline does not range over its stage definitions")
 		} else {
 			ex := &an.Explorer{P: p, NoReturn: noReturn}
-		loop.Bound(ex)
+			loop.Bound(ex)
 			ex.Effect = func(in ssa.Instruction, st *an.State) string {
 				if call, ok := in.(*ssa.Call); ok {
 					for _, callee := range p.Callees(&call.Call) {
